@@ -876,9 +876,9 @@ public:
                     }
                     if (ignore_empty_values_ && buffer_.empty())
                     {
-                        // The ignored field may be the only one: the record it began is still ended
-                        end_record(local_visitor, ec);
-                        state_ = csv_parse_state::no_more_records;
+                        // The ignored field may be the only one: the record it began (and an open
+                        // list of subfields) is still ended
+                        state_ = csv_parse_state::before_last_unquoted_field_tail;
                     }
                     else
                     {
@@ -888,8 +888,8 @@ public:
                     break;
                 case csv_parse_state::before_last_quoted_field:
                     end_quoted_string_value(local_visitor, ec);
-                    ++column_index_;
-                    state_ = csv_parse_state::end_record;
+                    // closes an open list of subfields, counts the column and ends the record
+                    state_ = csv_parse_state::before_last_unquoted_field_tail;
                     break;
                 case csv_parse_state::escaped_value:
                     if (quote_escape_char_ == quote_char_)
@@ -902,9 +902,9 @@ public:
                         }
                         else
                         {
-                            // The ignored field may be the only one: the record it began is still ended
-                            end_record(local_visitor, ec);
-                            state_ = csv_parse_state::no_more_records;
+                            // The ignored field may be the only one: the record it began (and an open
+                            // list of subfields) is still ended
+                            state_ = csv_parse_state::before_last_unquoted_field_tail;
                         }
                     }
                     else
@@ -933,8 +933,7 @@ public:
                     }
                     else
                     {
-                        end_record(local_visitor, ec);
-                        state_ = csv_parse_state::no_more_records;
+                        state_ = csv_parse_state::before_last_unquoted_field_tail;
                     }
                     break;
                 case csv_parse_state::end_record:
